@@ -71,6 +71,34 @@ theorem runHist_keep (A : Assigns) (W : Writes) (field : String) (hA : ∀ a ∈
     simp only [runHist, runFn_keep _ (assignsOf_keep A hA fn field)]
     exact ih
 
+/-- a field that no function stores entries into cannot meet the nil-map panic, whatever state it is in -/
+theorem runHist_unwritten (A : Assigns) (W : Writes) (field : String) (hw : written W field = false) (h : Hist) (cur : Bool) :
+    (runHist A W field h cur).isSome = true := by
+  induction h generalizing cur with
+  | nil => rfl
+  | cons e h ih =>
+    obtain ⟨fn, exec⟩ := e
+    have : writesTo W fn field = false := by
+      unfold writesTo
+      cases hc : W.contains (fn, field) with
+      | false => rfl
+      | true =>
+        have hm : (fn, field) ∈ W := by simpa using hc
+        have : written W field = true := by
+          unfold written
+          rw [List.any_eq_true]
+          exact ⟨(fn, field), hm, by simp⟩
+        rw [this] at hw
+        cases hw
+    simp only [runHist, runFn, this, Bool.false_and, Bool.false_eq_true, ↓reduceIte]
+    exact ih _
+
+theorem written_mem (W : Writes) (field : String) (hw : written W field = true) : ∃ w ∈ W, w.2 = field := by
+  unfold written at hw
+  rw [List.any_eq_true] at hw
+  obtain ⟨w, hm, he⟩ := hw
+  exact ⟨w, hm, by simpa using he⟩
+
 /-! ### B -/
 
 theorem buildTxList_pos (newTx : Bytes → Option Nat) (raw : Bytes) (n : Nat)
